@@ -80,7 +80,14 @@ func (tr *Translator) runBody(ct *Contract, full bool) {
 	if len(ct.Loops) > 0 {
 		tr.prepareLoopClauses(ct, f)
 	}
-	out, res := f.exec(st, args, nil)
+	// a function literal verified on its own: its captured variables are unconstrained
+	var free []Val
+	for _, fv := range fn.FreeVars {
+		v := Val{t: c.declConst("fv_"+fv.Name(), c.sortOf(fv.Type())), typ: fv.Type()}
+		st.guard = and(append([]Sx{st.guard}, tr.typeFacts(st, v)...)...)
+		free = append(free, v)
+	}
+	out, res := f.exec(st, args, free)
 	if !full {
 		return
 	}
